@@ -266,7 +266,21 @@ class MountFS(FS):
         # type: (...) -> Iterator[Info]
         self.check()
         fs, _path = self._delegate(path)
-        return fs.scandir(_path, namespaces=namespaces, page=page)
+        scan = fs.scandir(_path, namespaces=namespaces, page=page)
+        if fs is not self.default_fs or not self.mounts:
+            return scan
+        return self._scan_mount_points(path, scan, namespaces)
+
+    def _scan_mount_points(self, path, scan, namespaces):
+        # type: (Text, Iterator[Info], Optional[Collection[Text]]) -> Iterator[Info]
+        # An entry that is a mount point is described by the filesystem
+        # mounted there (as getinfo does), not by its placeholder directory.
+        dir_path = forcedir(abspath(normpath(path)))
+        mount_paths = set(mount_path for mount_path, _ in self.mounts)
+        for info in scan:
+            if forcedir(dir_path + info.name) in mount_paths:
+                info = self.getinfo(dir_path + info.name, namespaces=namespaces)
+            yield info
 
     def setinfo(self, path, info):
         # type: (Text, RawInfo) -> None
